@@ -15,7 +15,9 @@
    ADD_PROVIDER send). *)
 From Coq Require Import List NArith Bool.
 From V.gen Require Consts.
-From V.C16 Require Import Model Proofs.
+From V.C14 Require Model Proofs.
+From V.C17 Require Model.
+From V.C16 Require Import Model Proofs Obl Bound Chan Exec Time Compose Comp.
 Import ListNotations.
 Open Scope N_scope.
 
@@ -85,21 +87,481 @@ Theorem C16_drain_progress :
 Proof. exact serve_progress. Qed.
 Print Assumptions C16_drain_progress.
 
+(* at most one obligation per (kind, query, peer): over pending_dials, pending_actions and the executor
+   together, after every history with fresh query ids and well-formed commands (`cmd_ok`: the routing
+   table never hands out the local peer as a seed; put_record_to_peers is not given a peer twice) *)
+Theorem C16_at_most_one :
+  forall g m es k q p,
+  fresh_ids [] es -> cmds_ok g es -> (cnt (fst (run g (st0 m) es)) k q p <= 1)%nat.
+Proof. exact at_most_one. Qed.
+Print Assumptions C16_at_most_one.
+
+(* hence exactly one: a peer a live query waits for has one outstanding obligation of that query *)
+Theorem C16_exactly_one :
+  forall g m es q x p,
+  1 <= g_alpha g -> fresh_ids [] es -> cmds_ok g es ->
+  let s := fst (run g (st0 m) es) in
+  aget q (eng s) = Some x -> In p (waiting x) -> cnt s (negb (is_track x)) q p = 1%nat.
+Proof. exact exactly_one. Qed.
+Print Assumptions C16_exactly_one.
+
 (* quorum honesty: a PutRecordSuccess / AddProviderSuccess for q is only emitted when, for at least
-   clamp(requested quorum, number of targets) DISTINCT target peers of the send phase, an executor
-   future working for q has reported a completed send (`sends` collects exactly the SendSuccess /
-   AssumeSendSuccess / ReadSuccess completions of futures carrying a query id) *)
+   clamp(requested quorum, number of targets) DISTINCT TARGET peers of the send phase, an executor
+   future created for that peer's SendPutValue / SendAddProvider action has reported a completed send.
+   `put_sends` collects exactly the SendSuccess / AssumeSendSuccess / ReadSuccess completions of
+   send-phase futures (FReqEat / FSend); a late FIND_NODE reply of the lookup phase does not count
+   (it cannot even reach the counter: by C16_at_most_one no request future of the lookup exists for
+   a target once the send phase has started) *)
 Theorem C16_quorum_honest :
   forall g m es q,
-  fresh_ids [] es ->
+  fresh_ids [] es -> cmds_ok g es ->
   let outs := snd (run g (st0 m) es) in
   In (OPutSuccess q) outs \/ In (OProvSuccess q) outs ->
   exists targets qr S,
     find_quorum q es = Some qr /\ In (OTrack q targets) outs /\ NoDup S /\
     clamp qr (N.of_nat (length targets)) <= N.of_nat (length S) /\
-    (forall p, In p S -> In (q, p) (sends g (st0 m) es) /\ In p targets).
-Proof. exact quorum_honest. Qed.
+    (forall p, In p S -> In (q, p) (put_sends g (st0 m) es) /\ In p targets).
+Proof. exact quorum_honest_put. Qed.
 Print Assumptions C16_quorum_honest.
+
+(* the measure: M = sum over live queries of (5 * C15's lookup measure + queued records + 5k + 2 | 5 * targets + 2 |
+   pending + 1) + 4 per queued dial action + 3 per pending substream action + 2 / 1 per executor
+   future.  No event other than new work (command, inbound substream) raises it; every productive event
+   (a served query with an action, the answer to a queued dial / pending substream / future) lowers it *)
+Theorem C16_step_measure :
+  forall U g s e,
+  BE U g s -> ev_in_U U e -> is_input e = false ->
+  BE U g (fst (fst (step g s e))) /\ (M U g (fst (fst (step g s e))) <= M U g s)%nat /\
+  (productive s e -> (M U g (fst (fst (step g s e))) < M U g s)%nat).
+Proof. exact step_M. Qed.
+Print Assumptions C16_step_measure.
+
+(* when nothing productive is enabled, nothing is owed and the engine is drained *)
+Theorem C16_stuck_idle :
+  forall s, NoDup (map fst (eng s)) -> stuck s -> idle s /\ quiescent s = true.
+Proof. exact stuck_idle. Qed.
+Print Assumptions C16_stuck_idle.
+
+(* fair termination with an explicit bound: after ANY history es0 (peers drawn from a universe U of
+   n peers), every schedule es1 without new work in which the drain loop and the environment keep
+   answering what is owed has at most budget(n, k, es0) events — (10 n + 5 k + 2) per command,
+   (5 |peers| + 2) per put_record_to_peers, 2 per inbound substream — and when it ends because
+   nothing productive is enabled, every started operation has exactly one terminal event.  The
+   premises `idle` / `quiescent` of C16_terminates are no longer assumed: they follow. *)
+Theorem C16_fair_terminates :
+  forall U g m es0 es1 q,
+  1 <= g_alpha g -> fresh_ids [] (es0 ++ es1) -> cmds_ok g es0 -> evs_in_U U es0 -> evs_in_U U es1 ->
+  let s0 := fst (run g (st0 m) es0) in
+  fair_run g s0 es1 ->
+  (length (work es1) <= budget (length U) g es0)%nat /\
+  (stuck (fst (run g s0 es1)) ->
+   terminals q (snd (run g (st0 m) (es0 ++ es1))) = started q (es0 ++ es1) /\
+   (started q (es0 ++ es1) <= 1)%nat).
+Proof. exact fair_terminates. Qed.
+Print Assumptions C16_fair_terminates.
+
+(* await points inside the handlers: with an event channel of `cap` slots towards the KademliaHandle
+   (`brun`: the loop takes an event only when it is not parked in a handler; `BRecv` = the user
+   receives one event) nothing is lost, duplicated or reordered — what the user has received, then
+   the channel, then the backlog of the parked handler is exactly the event sequence of the
+   unbounded loop on the events that were really taken — the state is that loop's state, the
+   channel never exceeds its capacity, and the loop is parked only while the channel is full *)
+Theorem C16_bounded_channel :
+  forall g m cap es,
+  let b' := fst (brun g cap (b0 m) es) in
+  let rcv := snd (brun g cap (b0 m) es) in
+  let tk := taken g cap (b0 m) es in
+  b_st b' = fst (run g (st0 m) tk) /\
+  rcv ++ b_chan b' ++ b_back b' = filter is_event (snd (run g (st0 m) tk)) /\
+  (length (b_chan b') <= cap)%nat /\ (b_back b' <> [] -> length (b_chan b') = cap).
+Proof. exact bounded_channel. Qed.
+Print Assumptions C16_bounded_channel.
+
+(* and the user can always drain it: after |channel| + |backlog| receives everything has arrived *)
+Theorem C16_channel_drains :
+  forall g cap n b,
+  (1 <= cap)%nat -> bwf cap b -> (length (flight b) <= n)%nat ->
+  flight (fst (brun g cap b (repeat BRecv n))) = [] /\
+  snd (brun g cap b (repeat BRecv n)) = flight b.
+Proof. exact drain_all. Qed.
+Print Assumptions C16_channel_drains.
+
+(* ---- the composition: glue + routing table (the C14 model) + record store (the C17 model) ----
+   `crun wc (w0 ..) us` (Compose.v) runs user-level events: commands carry only what the user gives
+   (`UCmd q c target`, `UPutToPeers q quorum record given`, `UStoreRecord`, `UAddKnownPeer`), the
+   seeds, the XOR-distance ranks and the local-record flag are computed from the world's table and
+   store, and every place where kademlia/mod.rs touches the table or the store is an operation of
+   the C14 / C17 model.  `keys_ok`: every peer label has one 256-bit key, distinct peers distinct keys. *)
+
+(* the composed run IS a run of the glue model, on the elaborated events: same state, same output *)
+Theorem C16_compose_refines :
+  forall wc us w,
+  w_st (fst (crun wc w us)) = fst (run (wc_g wc) (w_st w) (elabs wc w us)) /\
+  snd (crun wc w us) = snd (run (wc_g wc) (w_st w) (elabs wc w us)).
+Proof. exact compose_refines. Qed.
+Print Assumptions C16_compose_refines.
+
+(* everything the Kademlia event loop does to the routing table (add_known_peer, connection
+   established / closed, dial failure, disconnect_peer, the peers learnt from replies, the entry()
+   calls of put_record_to_peers) preserves C14's table invariant *)
+Theorem C16_table_invariant :
+  forall wc m us, keys_ok wc ->
+  V.C14.Proofs.Inv (lkey wc) (wc_K wc) (w_rt (fst (crun wc (w0 wc m (length (lkey wc))) us))).
+Proof. exact table_inv. Qed.
+Print Assumptions C16_table_invariant.
+
+(* "closest peers seeded from the table": after every composed history a lookup command is started
+   with seeds = RoutingTable::closest(target, k) of the current table; the local peer is never a seed;
+   and (outside the class of finding F-C14a) the seeds are sorted by distance to the target, without
+   duplicates, addressed entries of the table, min(k, #addressed) many, and every addressed entry left
+   out is strictly further than every seed *)
+Theorem C16_seeds_from_table :
+  forall wc m us q c target,
+  keys_ok wc ->
+  let w := fst (crun wc (w0 wc m (length (lkey wc))) us) in
+  let t := w_rt w in
+  let k := N.to_nat (g_k (wc_g wc)) in
+  let nodes := V.C14.Model.closest (lkey wc) t target k in
+  let cands := filter V.C14.Model.n_addr (concat t) in
+  let seeds := map (fun n => peer_of (wc_keys wc) (V.C14.Model.n_key n)) nodes in
+  (exists cmd, fst (fst (elab wc w (UCmd q c target))) = ECmd q cmd (dists_of wc target) seeds) /\
+  ~ In (g_local (wc_g wc)) seeds /\
+  (length target = length (lkey wc) -> V.C14.Proofs.outside_class (lkey wc) t target ->
+   Sorted.StronglySorted (V.C14.Proofs.dlt target) nodes /\ NoDup (map V.C14.Model.n_key nodes) /\
+   (forall n, In n nodes -> In n cands) /\
+   length nodes = Nat.min k (length cands) /\
+   (forall a b, In a nodes -> In b cands -> ~ In b nodes -> V.C14.Proofs.dlt target a b)).
+Proof. exact seeds_from_table. Qed.
+Print Assumptions C16_seeds_from_table.
+
+(* put_record_to_peers (after the repair of F-C16e): the send phase targets only peers the caller
+   named, never the local peer, and no peer twice when the caller named none twice *)
+Theorem C16_put_to_peers_named :
+  forall wc w q qr rk given,
+  keys_ok wc ->
+  exists ps, fst (fst (elab wc w (UPutToPeers q qr rk given))) = EPutToPeers q qr ps /\
+             (forall x, In x ps -> In x given /\ x <> g_local (wc_g wc)) /\
+             (NoDup given -> NoDup ps).
+Proof. exact put_to_peers_named. Qed.
+Print Assumptions C16_put_to_peers_named.
+
+(* hence the side conditions of the theorems above hold for every composed history by construction:
+   query ids fresh at user level are fresh, and the elaborated commands are well formed *)
+Theorem C16_compose_cmds_ok :
+  forall wc m us,
+  keys_ok wc -> ufresh [] us -> Forall (ucmd_ok (wc_g wc)) us ->
+  let es := elabs wc (w0 wc m (length (lkey wc))) us in
+  fresh_ids [] es /\ cmds_ok (wc_g wc) es.
+Proof. exact c_sides. Qed.
+Print Assumptions C16_compose_cmds_ok.
+
+(* GetRecord and the local store: with a live local record and Quorum::One the operation answers at
+   once — FoundRecord(local record) then GetRecordSuccess — and neither starts a query nor touches the
+   network; otherwise a GET_VALUE lookup is started from the table's closest peers, with the local
+   record counted as one found record (and reported as a partial result) when there is one *)
+Theorem C16_get_record_local :
+  forall wc w q qr rk target,
+  SI wc (w_store w) -> 1 <= wc_ttl wc ->
+  let g := wc_g wc in
+  let hit := match V.C17.Model.find_rec rk (V.C17.Model.recs (w_store w)) with Some _ => true | None => false end in
+  let lookup := start_lookup g (w_st w) q LRec qr
+                  (lcfg g V.C15.Model.KRecord (needed_of g qr) (if hit then 1 else 0) (dists_of wc target))
+                  (seeds_of wc (w_rt w) target) in
+  fst (cstep wc w (UCmd q (UCGet qr rk) target)) =
+  match qr, hit with
+  | QOne, true => (w, [OPartial q (g_local g) LOCAL_REC; OGetRecSuccess q])
+  | _, _ => (mkW lookup (w_rt w) (w_store w) (w_prov w) (w_timers w),
+             if hit then [OPartial q (g_local g) LOCAL_REC] else [])
+  end.
+Proof. exact get_record_step. Qed.
+Print Assumptions C16_get_record_local.
+
+(* its premise holds in every reachable world: every record of the store carries the configured ttl *)
+Theorem C16_store_records_live :
+  forall wc m L us, 1 <= wc_ttl wc -> SI wc (w_store (fst (crun wc (w0 wc m L) us))).
+Proof. exact reach_SI. Qed.
+Print Assumptions C16_store_records_live.
+
+(* a record this node stored (`stores`: store_record, the local half of put_record, or — with automatic
+   validation — a PUT_VALUE of a remote peer) is found by every later GetRecord(Quorum::One), whatever
+   happened in between, as long as the store's capacity is not exceeded *)
+Theorem C16_put_then_get :
+  forall wc m L us1 u us2 q rk target,
+  1 <= wc_ttl wc -> REC_LEN < V.C17.Model.max_size (wc_scfg wc) ->
+  N.of_nat (length (us1 ++ u :: us2)) <= V.C17.Model.max_records (wc_scfg wc) ->
+  stores wc (fst (crun wc (w0 wc m L) us1)) u rk ->
+  let w := fst (crun wc (w0 wc m L) (us1 ++ u :: us2)) in
+  fst (cstep wc w (UCmd q (UCGet QOne rk) target)) =
+  (w, [OPartial q (g_local (wc_g wc)) LOCAL_REC; OGetRecSuccess q]).
+Proof. exact put_then_get. Qed.
+Print Assumptions C16_put_then_get.
+
+(* the theorems above, for composed histories from the empty world *)
+Theorem C16_compose_no_wait :
+  forall wc m us q x p,
+  1 <= g_alpha (wc_g wc) ->
+  let s := w_st (fst (crun wc (w0 wc m (length (lkey wc))) us)) in
+  aget q (eng s) = Some x -> In p (waiting x) -> owes s (negb (is_track x)) q p.
+Proof. exact c_no_wait. Qed.
+Print Assumptions C16_compose_no_wait.
+
+(* `cstarted wc w q us` = how often the composed run starts an operation with id q: user commands,
+   put_record_to_peers, and the provider refreshes that are due when a timer of the store fires *)
+Theorem C16_compose_one_terminal :
+  forall wc m us q,
+  ufresh [] us ->
+  let W0 := w0 wc m (length (lkey wc)) in
+  (terminals q (snd (crun wc W0 us)) + (if live q (w_st (fst (crun wc W0 us))) then 1 else 0) =
+   cstarted wc W0 q us)%nat /\
+  (cstarted wc W0 q us <= ustarted q us)%nat /\ (cstarted wc W0 q us <= 1)%nat.
+Proof. exact c_one_terminal. Qed.
+Print Assumptions C16_compose_one_terminal.
+
+Theorem C16_compose_terminates :
+  forall wc m us q,
+  1 <= g_alpha (wc_g wc) -> ufresh [] us ->
+  let W0 := w0 wc m (length (lkey wc)) in
+  let w := fst (crun wc W0 us) in
+  idle (w_st w) -> quiescent (w_st w) = true ->
+  terminals q (snd (crun wc W0 us)) = cstarted wc W0 q us /\ (cstarted wc W0 q us <= 1)%nat.
+Proof. exact c_terminates. Qed.
+Print Assumptions C16_compose_terminates.
+
+(* fair termination with the explicit bound, for composed histories: the peer universe is the key table
+   (plus the label of unknown keys); after ANY composed history us0, every continuation us1 without new
+   work whose elaborated events are productive (or time passing) has at most budget(|U|, k, us0) events
+   and, when nothing productive is enabled any more, every started operation — the due refreshes
+   included — has exactly one terminal event *)
+Theorem C16_compose_fair_terminates :
+  forall wc m U us0 us1 q,
+  keys_ok wc -> 1 <= g_alpha (wc_g wc) ->
+  (forall p, In p (UNKNOWN :: map fst (wc_keys wc)) -> In p U) ->
+  ufresh [] (us0 ++ us1) -> Forall (ucmd_ok (wc_g wc)) us0 -> Forall (uev_in_U U) (us0 ++ us1) ->
+  let W0 := w0 wc m (length (lkey wc)) in
+  let w1 := fst (crun wc W0 us0) in
+  let es1 := elabs wc w1 us1 in
+  fair_run (wc_g wc) (w_st w1) es1 ->
+  (length (work es1) <= budget (length U) (wc_g wc) (elabs wc W0 us0))%nat /\
+  (stuck (w_st (fst (crun wc w1 us1))) ->
+   terminals q (snd (crun wc W0 (us0 ++ us1))) = cstarted wc W0 q (us0 ++ us1) /\
+   (cstarted wc W0 q (us0 ++ us1) <= 1)%nat).
+Proof. exact c_fair_terminates. Qed.
+Print Assumptions C16_compose_fair_terminates.
+
+Theorem C16_compose_at_most_one :
+  forall wc m us k q p,
+  keys_ok wc -> ufresh [] us -> Forall (ucmd_ok (wc_g wc)) us ->
+  (cnt (w_st (fst (crun wc (w0 wc m (length (lkey wc))) us))) k q p <= 1)%nat.
+Proof. exact c_at_most_one. Qed.
+Print Assumptions C16_compose_at_most_one.
+
+Theorem C16_compose_quorum_honest :
+  forall wc m us q,
+  keys_ok wc -> ufresh [] us -> Forall (ucmd_ok (wc_g wc)) us ->
+  let outs := snd (crun wc (w0 wc m (length (lkey wc))) us) in
+  let es := elabs wc (w0 wc m (length (lkey wc))) us in
+  In (OPutSuccess q) outs \/ In (OProvSuccess q) outs ->
+  exists targets qr S,
+    find_quorum q es = Some qr /\ In (OTrack q targets) outs /\ NoDup S /\
+    clamp qr (N.of_nat (length targets)) <= N.of_nat (length S) /\
+    (forall p, In p S -> In (q, p) (put_sends (wc_g wc) (st0 m) es) /\ In p targets).
+Proof. exact c_quorum_honest. Qed.
+Print Assumptions C16_compose_quorum_honest.
+
+(* a connection closes while requests to the peer are outstanding: every pending-substream action for
+   the peer is gone (its query was told of the failure), pending_dials and the executor are untouched,
+   and a query that still waits for the peer is owed by an executor future (the request was already on a
+   substream: its read ends with an error or with the 15 s timeout) or by a queued dial — never by nothing *)
+Theorem C16_closed_while_outstanding :
+  forall g m es p,
+  1 <= g_alpha g ->
+  let s := fst (run g (st0 m) es) in
+  aget p (conn s) <> None ->
+  let s' := fst (fst (step g s (EClosed p))) in
+  aget p (peers s') = None /\ futs s' = futs s /\ pdial s' = pdial s /\
+  forall q x, aget q (eng s') = Some x -> In p (waiting x) ->
+    owes_dial s' (negb (is_track x)) q p \/ owes_fut s' (negb (is_track x)) q p.
+Proof. exact closed_discharges. Qed.
+Print Assumptions C16_closed_while_outstanding.
+
+(* ---- "within bounded time" ---- *)
+
+(* Obligations carry their time of birth: a queued dial (per peer), a pending substream (per id), an
+   executor future (per id).  `timed D`: the clock passes only while the loop waits with the engine
+   drained, and never more than D beyond the birth of an obligation that is still outstanding (dials and
+   substream requests are answered within D by the transport layer; futures complete within
+   WRITE_TIMEOUT + READ_TIMEOUT by C16_executor_bounded).  Then in a fair schedule without new work the
+   event after k productive ones happens at most D * (k + 1) after the start ... *)
+Theorem C16_bounded_time :
+  forall D g m es0 a e b,
+  1 <= g_alpha g -> is_tick e = false ->
+  let s0 := fst (run g (st0 m) es0) in
+  fair_run g s0 (a ++ e :: b) ->
+  timed D g s0 (restamp (now s0) [] (okeys s0)) (a ++ e :: b) ->
+  now (fst (run g s0 a)) <= now s0 + D * N.of_nat (S (length (work a))).
+Proof. exact bounded_time. Qed.
+Print Assumptions C16_bounded_time.
+
+(* ... hence every event of such a schedule, in particular every terminal event, happens within
+   D * budget(n, k, es0) of its start: the explicit time bound of the property *)
+Theorem C16_bounded_time_budget :
+  forall D U g m es0 a e b,
+  1 <= g_alpha g -> fresh_ids [] (es0 ++ a ++ e :: b) -> cmds_ok g es0 ->
+  evs_in_U U es0 -> evs_in_U U (a ++ e :: b) -> is_tick e = false ->
+  let s0 := fst (run g (st0 m) es0) in
+  fair_run g s0 (a ++ e :: b) ->
+  timed D g s0 (restamp (now s0) [] (okeys s0)) (a ++ e :: b) ->
+  now (fst (run g s0 a)) <= now s0 + D * N.of_nat (budget (length U) g es0).
+Proof. exact bounded_time_budget. Qed.
+Print Assumptions C16_bounded_time_budget.
+
+(* ---- requests of remote peers, served by the same loop ---- *)
+
+(* inbound traffic (a remote peer opens a substream; a future without query id reads a request or
+   finishes its reply) neither starts, ends nor touches an operation of the user: the engine,
+   pending_dials, pending_substreams and every pending action are unchanged, only IncomingRecord /
+   IncomingProvider are emitted, every future that works for a query stays in flight.  (A FAILED inbound
+   future calls disconnect_peer like any failed future: that case is covered by the theorems above.) *)
+Theorem C16_inbound_isolated :
+  forall g s e,
+  inbound_ev s e ->
+  let s' := fst (fst (step g s e)) in
+  let o := snd (fst (step g s e)) in
+  eng s' = eng s /\ pdial s' = pdial s /\ psub s' = psub s /\
+  (forall p acts, aget p (peers s) = Some acts -> aget p (peers s') = Some acts) /\
+  (forall x, In x o -> x = OIncomingRecord \/ x = OIncomingProvider) /\
+  (forall f, In f (futs s) -> f_q f <> None -> In f (futs s')).
+Proof. exact inbound_isolated. Qed.
+Print Assumptions C16_inbound_isolated.
+
+(* what the node answers: the closer peers of a FIND_NODE / GET_VALUE / GET_PROVIDERS reply are
+   RoutingTable::closest of the current table — the function that seeds the node's own lookups: never the
+   local peer, at most k — and GET_VALUE carries the record exactly when the store has it *)
+Theorem C16_inbound_reply :
+  forall wc w id rq b ps,
+  keys_ok wc -> V.C14.Proofs.Inv (lkey wc) (wc_K wc) (w_rt w) -> SI wc (w_store w) -> 1 <= wc_ttl wc ->
+  reply_of wc w (UInReq id rq) = Some (b, ps) ->
+  exists target,
+    (rq = IFindNode target \/ (exists rk, rq = IGetValue rk target) \/ rq = IGetProviders target) /\
+    ps = seeds_of wc (w_rt w) target /\ ~ In (g_local (wc_g wc)) ps /\
+    (length ps <= N.to_nat (g_k (wc_g wc)))%nat /\
+    (b = true <-> exists rk, rq = IGetValue rk target /\ stored (w_store w) rk).
+Proof. exact inbound_reply. Qed.
+Print Assumptions C16_inbound_reply.
+
+(* a record this node stored (store_record, or the local half of put_record) is served to every remote
+   GET_VALUE that comes later *)
+Theorem C16_serve_after_put :
+  forall wc m L us1 u us2 rk id target,
+  1 <= wc_ttl wc -> REC_LEN < V.C17.Model.max_size (wc_scfg wc) ->
+  N.of_nat (length (us1 ++ u :: us2)) <= V.C17.Model.max_records (wc_scfg wc) ->
+  stores wc (fst (crun wc (w0 wc m L) us1)) u rk ->
+  let w := fst (crun wc (w0 wc m L) (us1 ++ u :: us2)) in
+  inbound_read (w_st w) id = true ->
+  reply_of wc w (UInReq id (IGetValue rk target)) = Some (true, seeds_of wc (w_rt w) target).
+Proof. exact serve_after_put. Qed.
+Print Assumptions C16_serve_after_put.
+
+(* IncomingRecordValidationMode: in the Manual mode no event of the loop writes the store — an inbound
+   PUT_VALUE only raises IncomingRecord and the user decides with store_record; in the Automatic mode the
+   record is in the store as soon as the request has been read *)
+Theorem C16_manual_validation :
+  forall wc w u,
+  wc_vauto wc = false ->
+  (exists e, u = UEv e) \/ (exists id rk, u = UInReq id (IPutValue rk)) ->
+  w_store (fst (fst (cstep wc w u))) = w_store w.
+Proof. exact manual_validation. Qed.
+Print Assumptions C16_manual_validation.
+
+Theorem C16_auto_validation :
+  forall wc w id rk,
+  wc_vauto wc = true -> inbound_read (w_st w) id = true ->
+  w_store (fst (fst (cstep wc w (UInReq id (IPutValue rk))))) =
+  V.C17.Model.put (wc_scfg wc) (w_store w) (local_record wc rk).
+Proof. exact auto_validation. Qed.
+Print Assumptions C16_auto_validation.
+
+(* RoutingTableUpdateMode::Manual: the peers of replies are reported (RoutingTableUpdate) but not
+   inserted — after every composed history every peer in the routing table was put there by an
+   add_known_peer call of the user *)
+Theorem C16_manual_routing_table :
+  forall wc m L us n,
+  wc_auto wc = false ->
+  In n (concat (w_rt (fst (crun wc (w0 wc m L) us)))) -> V.C14.Model.n_key n <> [] ->
+  exists p, In (UAddKnownPeer p true) us /\ V.C14.Model.n_key n = pkey wc p.
+Proof. exact manual_table. Qed.
+Print Assumptions C16_manual_routing_table.
+
+(* ---- the store's refresh timers ---- *)
+
+(* a refresh timer that fires starts an ADD_PROVIDER operation exactly when the key is still provided —
+   the last start_providing(rk) has not been followed by stop_providing(rk) — with the quorum of that
+   call and seeds from the current table; and then a new timer is armed *)
+Theorem C16_refresh_due :
+  forall wc m L us q rk target,
+  let w := fst (crun wc (w0 wc m L) us) in
+  In rk (w_timers w) ->
+  fst (fst (elab wc w (UFire q rk target))) =
+  match last_prov rk None us with
+  | Some qr => ECmd q (CRefresh qr) (dists_of wc target) (seeds_of wc (w_rt w) target)
+  | None => ENop
+  end /\
+  (last_prov rk None us <> None -> In rk (w_timers (fst (fst (cstep wc w (UFire q rk target)))))).
+Proof. exact refresh_due. Qed.
+Print Assumptions C16_refresh_due.
+
+(* as long as a key is provided a timer is armed for it: the refresh will come *)
+Theorem C16_provided_has_timer :
+  forall wc m L us rk,
+  last_prov rk None us <> None -> In rk (w_timers (fst (crun wc (w0 wc m L) us))).
+Proof. exact provided_has_timer. Qed.
+Print Assumptions C16_provided_has_timer.
+
+(* ---- the executor's futures and their timers (Exec.v) ---- *)
+
+(* whatever the substream does, the QueryResult of a future is one the model of the loop accepts for its
+   kind, and every accepted result is the outcome of some behaviour: the abstract completion events of
+   the theorems above are exactly the executor's outcomes *)
+Theorem C16_executor_sound :
+  forall T k w r, res_ok k (fst (exec T k w r)) = true.
+Proof. exact exec_sound. Qed.
+Print Assumptions C16_executor_sound.
+
+Theorem C16_executor_complete :
+  forall T k res,
+  0 < t_w T -> 0 < t_r T -> res_ok k res = true -> exists w r, fst (exec T k w r) = res.
+Proof. exact exec_complete. Qed.
+Print Assumptions C16_executor_complete.
+
+(* no future outlives WRITE_TIMEOUT + READ_TIMEOUT: the environment's obligation "every executor future
+   completes" is discharged by the executor itself, within 30 s on the shipped constants *)
+Theorem C16_executor_bounded :
+  forall T k w r, snd (exec T k w r) <= t_w T + t_r T.
+Proof. exact exec_bounded. Qed.
+Print Assumptions C16_executor_bounded.
+
+(* a peer that takes the request and never answers: the read timeout ends the wait with ReadFailure
+   (AssumeSendSuccess for the PUT_VALUE future), READ_TIMEOUT after the write *)
+Theorem C16_executor_silent_peer :
+  forall T k t,
+  t < t_w T ->
+  exec T k (WAccept t) RNever =
+  match k with
+  | FReqResp => (RReadFail, t + t_r T)
+  | FReqEat => (RAssume, t + t_r T)
+  | FInRead => (RReadFail, t_r T)
+  | _ => (RSendOk, t)
+  end.
+Proof. exact exec_silent. Qed.
+Print Assumptions C16_executor_silent_peer.
+
+(* for the send-phase futures a completion counts as sent exactly when the write phase was completed:
+   the quorum is counted over frames that really left the node *)
+Theorem C16_executor_sent :
+  forall T k w r,
+  k = FReqEat \/ k = FSend -> sent_res (fst (exec T k w r)) = written T w.
+Proof. exact exec_sent. Qed.
+Print Assumptions C16_executor_sent.
 
 (* the shipped parallelism factor and executor timeouts satisfy what is assumed above *)
 Theorem C16_default_config :
@@ -112,15 +574,84 @@ Print Assumptions C16_default_config.
    peer the manager has no address for — the send phase starts, the peer is registered as failed at
    once and the operation reports QueryFailed *)
 Example C16_nonvacuous_undialable :
-  let g := mkG 20 3 99 in
+  let g := mkG 20 3 99 10 in
   snd (run g (st0 [(0, 0)]) [EPutToPeers 0 QOne [0]; EServe 0; EServe 0]) = [OTrack 0 [0]; OFailed 0].
 Proof. vm_compute. reflexivity. Qed.
 
 (* a FIND_NODE over one connected peer that answers: one terminal event, nothing left behind *)
 Example C16_nonvacuous_find :
-  let g := mkG 20 3 99 in
+  let g := mkG 20 3 99 10 in
   let es := [EEstablished 0 true; ECmd 0 CFindNode [0] [0]; EServe 0; EOpened 0 0;
              EFut 0 (RRead (MFindNode [])); EServe 0] in
   snd (run g (st0 [(0, 2)]) es) = [ORouting []; OFindNodeSuccess 0 [0]] /\
   eng (fst (run g (st0 [(0, 2)]) es)) = [] /\ futs (fst (run g (st0 [(0, 2)]) es)) = [].
 Proof. vm_compute. repeat split; reflexivity. Qed.
+
+(* peer timeout staleness inside the composition: parallelism factor 1, peer timeout 0, two seeds.  The
+   drain loop sends to peer 0 and stops (the slot is taken); once time has passed peer 0 is stale,
+   the next drain sends to peer 1 as well, and both remain waited for with exactly one obligation each *)
+Example C16_nonvacuous_stale :
+  let g := mkG 20 1 99 0 in
+  let s1 := fst (run g (st0 [(0, 2); (1, 2)])
+                   [EEstablished 0 true; EEstablished 1 true; ECmd 0 CFindNode [0; 1] [0; 1]; EServe 0; EServe 0]) in
+  let s2 := fst (run g s1 [ETick 1; EServe 0]) in
+  option_map waiting (aget 0 (eng s1)) = Some [0] /\ quiescent s1 = true /\
+  option_map waiting (aget 0 (eng s2)) = Some [0; 1] /\ quiescent s2 = true /\
+  cnt s2 true 0 0 = 1%nat /\ cnt s2 true 0 1 = 1%nat.
+Proof. vm_compute. repeat split; reflexivity. Qed.
+
+(* the composition is not vacuous: a world of three peers with 2-bit keys satisfies `keys_ok`; the peer
+   added to the table seeds the lookup, and a stored record is answered locally *)
+Example C16_nonvacuous_compose :
+  keys_ok ex_wc /\
+  snd (crun ex_wc (w0 ex_wc [(0, 2)] 2)
+         [UAddKnownPeer 0 true; UEv (EEstablished 0 true); UCmd 0 UCFind [true; true]; UEv (EServe 0);
+          UEv (EOpened 0 0); UEv (EFut 0 (RRead (MFindNode [1]))); UEv (EServe 0); UEv (EOpenFail 1); UEv (EServe 0);
+          UStoreRecord 7; UCmd 1 (UCGet QOne 7) [true; false]]) =
+  [ORouting [1]; OFindNodeSuccess 0 [0]; OPartial 1 99 LOCAL_REC; OGetRecSuccess 1].
+Proof. split; [exact ex_wc_ok | vm_compute; reflexivity]. Qed.
+
+(* the new layers are not vacuous.  Requests of remote peers: the reply to an inbound FIND_NODE names the
+   peer the user added to the table.  Refresh timers: the timer of a provided key starts a refresh with
+   the quorum of start_providing; after stop_providing it fires without effect.  Manual validation:
+   an inbound PUT_VALUE leaves the store empty, in the Automatic mode it is stored *)
+Example C16_nonvacuous_inbound_refresh :
+  let W0 := w0 ex_wc [(0, 2); (1, 2)] 2 in
+  let pre := [UAddKnownPeer 0 true; UEv (EEstablished 1 true); UEv (EInbound 1 100)] in
+  let w := fst (crun ex_wc W0 pre) in
+  reply_of ex_wc w (UInReq 100 (IFindNode [true; true])) = Some (false, [0]) /\
+  map V.C17.Model.r_key (V.C17.Model.recs (w_store (fst (fst (cstep ex_wc w (UInReq 100 (IPutValue 5))))))) = [5] /\
+  (let wm := mkWC (wc_g ex_wc) (wc_keys ex_wc) (wc_pool ex_wc) (wc_K ex_wc) (wc_scfg ex_wc) (wc_ttl ex_wc) true false in
+   V.C17.Model.recs (w_store (fst (fst (cstep wm (fst (crun wm (w0 wm [(0, 2); (1, 2)] 2) pre))
+                                             (UInReq 100 (IPutValue 5)))))) = []) /\
+  (let w1 := fst (crun ex_wc W0 [UCmd 0 (UCProv QOne 5) [true; true]]) in
+   fst (fst (elab ex_wc w1 (UFire 1 5 [true; true]))) = ECmd 1 (CRefresh QOne) [1; 0] [] /\
+   w_timers (fst (fst (cstep ex_wc w1 (UFire 1 5 [true; true])))) = [5]) /\
+  (let w2 := fst (crun ex_wc W0 [UCmd 0 (UCProv QOne 5) [true; true]; UStopProviding 5]) in
+   fst (fst (elab ex_wc w2 (UFire 1 5 [true; true]))) = ENop /\
+   w_timers (fst (fst (cstep ex_wc w2 (UFire 1 5 [true; true])))) = []).
+Proof. vm_compute. repeat split; reflexivity. Qed.
+
+(* a timed, fair schedule: the substream is opened 5 time units after it was asked for, the reply comes 7
+   later; D = 10 is respected, and the lookup ends at time 12 <= D * 3 *)
+Example C16_nonvacuous_timed :
+  let g := mkG 20 3 99 10 in
+  let s0 := fst (run g (st0 [(0, 2)]) [EEstablished 0 true; ECmd 0 CFindNode [0] [0]; EServe 0]) in
+  let es1 := [ETick 5; EOpened 0 0; ETick 7; EFut 0 (RRead (MFindNode [])); EServe 0] in
+  okeys s0 = [(1, 0)] /\ timed 10 g s0 (restamp (now s0) [] (okeys s0)) es1 /\ fair_run g s0 es1 /\
+  now (fst (run g s0 es1)) = 12 /\ snd (run g s0 es1) = [ORouting []; OFindNodeSuccess 0 [0]].
+Proof.
+  split; [vm_compute; reflexivity |]. split.
+  - cbn [timed is_tick]. split; [vm_compute; reflexivity |]. split.
+    + intros k t0 H. vm_compute in H. destruct H as [H | []]. inversion H. subst. vm_compute. discriminate.
+    + split; [vm_compute; reflexivity |]. split; [| exact I].
+      intros k t0 H. vm_compute in H. destruct H as [H | []]. inversion H. subst. vm_compute. discriminate.
+  - split.
+    + cbn [fair_run is_input is_tick]. split; [reflexivity |]. split; [left; reflexivity |].
+      split; [reflexivity |]. split.
+      { right. cbn [productive]. vm_compute. eexists. eexists. split; reflexivity. }
+      split; [reflexivity |]. split; [left; reflexivity |]. split; [reflexivity |]. split.
+      { right. cbn [productive]. vm_compute. eexists. split; reflexivity. }
+      split; [reflexivity |]. split; [| exact I]. right. vm_compute. reflexivity.
+    + vm_compute. split; reflexivity.
+Qed.
